@@ -26,6 +26,9 @@ def main():
     elif pid == 'C16':
         import adapt
         adapt.main(pid, 'quick' if tier == 'replay' else tier, rp)
+    elif pid == 'C17':
+        import shardq
+        shardq.main(pid, 'quick' if tier == 'replay' else tier, rp)
     elif pid == 'C12':
         import after
         after.main(pid, 'quick' if tier == 'replay' else tier, rp)
